@@ -46,7 +46,7 @@ FAMILIES = [
 ]
 ESTS = ["Lasso", "ElasticNet", "WeightedLasso", "MCPRegression", "GroupLasso", "MultiTaskLasso",
         "SparseLogisticRegression", "LinearSVC", "CoxEstimator", "GeneralizedLinearEstimator"]
-CONTAINERS = ["dense_F", "dense_C", "dense_view", "csc", "csc_unsorted", "csc_i64"]
+CONTAINERS = ["dense_F", "dense_C", "dense_view", "csc", "csc_unsorted", "csc_i64", "csc_explicit0"]
 EST_CONTAINERS = ["dense_F", "dense_C", "csc", "csr", "list", "float32", "csc_float32"]
 
 
@@ -74,6 +74,8 @@ def container(X, kind):
     if kind == "csc_i64":
         Xs = C.to_storage(X, "csc")
         return sp.csc_matrix((Xs.data, Xs.indices.astype(np.int64), Xs.indptr.astype(np.int64)), shape=Xs.shape)
+    if kind == "csc_explicit0":
+        return C.to_storage(X, "csc_explicit0")
     if kind == "csr":
         return sp.csr_matrix(X)
     if kind == "list":
@@ -177,7 +179,7 @@ def solver_case(emit, cid, solver, df, pen, rng, seed, rep):
         knobs[b_ep] = 5000 if b_ep == "max_epochs" else 300
     cs = dict(check="C10", seed=seed, coords=[solver, str(df), pen, rep], solver=solver, datafit=df, penalty=pen,
               storage="dense", fit_intercept=icpt, strategy="subdiff", n=int(rng.integers(12, 35)), p=int(rng.integers(3, 12)),
-              xkind=str(rng.choice(["gauss", "ar", "shifted"])), rho=0.7, density=float(rng.choice([1.0, 0.5])),
+              xkind=str(rng.choice(["gauss", "ar", "shifted", "centered"])), rho=0.7, density=float(rng.choice([1.0, 0.5])),
               alpha_frac=float(rng.choice([0.05, 0.3])), knobs=knobs, group_style=str(rng.choice(["contig", "perm"])),
               n_tasks=int(rng.integers(1, 4)), zero_weights=bool(rng.integers(0, 2)))
     case = K.Case(cs)
